@@ -2,6 +2,8 @@
 environment.  Used by harness functions; works the same natively (replay)
 and under CrossHair.
 """
+import os
+
 from crosshair.tracers import NoTracing
 
 from qbee import qvm_codegen  # noqa: F401  (registers the code generator)
@@ -202,6 +204,9 @@ def run_machine(machine, budget, per_tick=None, catch_host_exc=False):
                 raise
             except Exception as e:  # host exception escaping the VM
                 exc = type(e).__name__
+                if os.environ.get('VERIF_DEBUG_EXC'):
+                    import traceback
+                    traceback.print_exc()
         else:
             cpu.run()
     finally:
